@@ -50,10 +50,13 @@ def tail_weight(s):
         _TAIL[s] = float(w3[q2 >= (4 * s + 1) ** 2].sum())
     return _TAIL[s]
 RULE = ("one case = (box nx,ny,nz in 8..16 quick / 8..48 thorough (plus a share of tiny boxes 5..8 that the model also filters end to end with its own DFT), cubic or not, even and odd; filter low|high|band; cutoff(s) 1..N/2 "
-        "given as Fourier pixels or as resolution+pixel size (cubic boxes only; incl. exact .5 ties of box*px/res); Gaussian width from "
-        "{0,1,2,3,4} or a dyadic non-integer in (0,4]; input = seeded normal random field (+DC offset) or a sweep of pure plane waves "
+        "(incl. exactly shape[0]//2 with a hard edge) given as Fourier pixels or as resolution+pixel size on cubic AND non-cubic boxes (box edge = shape[0], the documented convention; incl. exact .5 ties of box*px/res); Gaussian width from "
+        "{0,1,2,3,4} or a dyadic non-integer in (0,4]; band-passes with equal, default (3/2), arbitrary and 'narrow band with the softer low-pass edge' width pairs, nested and inverted; in ~30 % of the cases the width keyword(s) are OMITTED "
+        "(signature defaults 3/2/3/2 run; the judged width is the documented default) and pixel_size is left out when unused; in ~20 % earlier low/high-pass calls with the same box/cutoff/width run first in the same process on the same array "
+        "object; 12 % 'margin' cases (sigma<=2, box large enough for bins on both sides of cutoff±(4s+1)). Input = seeded normal random field (+DC offset) or a sweep of pure plane waves "
         "cos(2*pi*k.p/N+phase) over every integer frequency k of the box (small boxes) or a random subset). The real filter runs on the "
-        "input, on a second field, on a*x+b*y, on a circularly shifted x, and with the companion low-pass(es); the gain of every DFT bin is "
+        "input, on a second field, on a*x+b*y, on a circularly shifted x, with the companion low-pass(es), with the documented defaults written out, with fourier_pixels=round(shape[0]*px/res), and once more at the end of the history; the caller's "
+        "array is compared before/after EVERY call; the gain of every DFT bin is "
         "measured as fft(out)/fft(in) and compared with the Lean model's gain array; on tiny boxes the OUTPUT ARRAY is compared with the model's np.real(ifftn(fftn(x)*gain)). non-trivial = the measured gains contain a value "
         "> 0.5 and a value < 0.5 (the cutoff lies inside the box, something passes and something is stopped); distinct = distinct case content")
 ASSUMPTIONS = [
@@ -64,25 +67,225 @@ ASSUMPTIONS = [
     "float64 arithmetic of numpy ~ exact arithmetic: hard-edge masks are compared exactly (integers), everything else within 1e-9",
     "'gain 1 inside cutoff-4s-1 / 0 outside cutoff+4s+1' is checked with the PROVED bounds of Props/C12.soft_gain_inside/outside: 1-gain <= tail3(ker, floor((4s+1)^2)), "
     "gain <= tail3(ker, ceil((4s+1)^2)-1), both evaluated by the driver on the executed kernel together with the per-bin hypotheses (fitsInside/fitsOutside); "
-    "the judge adds only the FFT round-off 1e-9. 'non-increasing in between' is checked along the 26 axis/diagonal rays within 1e-9 (proved along axis-parallel "
-    "lines for symmetric unimodal kernels when the ball stays off the faces of the mask box: soft_gain_mono_axis_x/y/z)",
+    "the judge adds only the FFT round-off 1e-9",
+    "'non-increasing in between' is a clause of the statement at 1e-9 exactly where it is a theorem (Props/C12.soft_eff_gain_mono_step: every step of one index away from frequency 0 on an axis whose ball stays off both faces of the mask "
+    "box — monoAxisOk, reported by the driver — at every position of the other indices; diagonal steps are chains of these). On the remaining axis/diagonal rays (the ball touches a face; mode='nearest' continues the mask and the unchanged "
+    "code rises by up to ~4e-8) a rise is a finding only beyond tail3(ker, floor((4s+1)^2)), and only on boxes >= 8 per axis (the statement's sizes); measured: <= 0.4 % of that weight on 8..48 boxes",
+    "the band-pass gain range [0,1] is checked on EVERY band-pass; failures with different edge widths are the open known finding C12-K1, failures of inverted bands (hp cutoff > lp cutoff) with equal widths are reported as C12-K2 (proposed), "
+    "both only while bandpass == lowpass(lp) - lowpass(hp) holds on the same input",
     "the model's own DFT (naive separable, Float cos/sin twiddles) agrees with numpy.fft (pocketfft) within 1e-9 on boxes <= 8 per axis (compared on every such case)",
     "Python round(float) = round-half-even of the exact value of the double (the model decodes the IEEE bits and rounds exactly)",
     "inputs are float64 arrays (numpy 2 transforms float32 maps in single precision: outside the tolerances used here)",
+    "the box edge of a non-cubic map is shape[0] (docstrings speak of 'box size'; anchored by box_edge_documented)",
 ]
-TRUSTED = ["harness gain measurement fft(out)/fft(in) and the plane-wave generator (props/c12.py)", "Drv/C12.lean JSON glue, Float.exp/cos/sin, float bit decoding (Model/C12.fracOfBits)"]
+TRUSTED = ["harness gain measurement fft(out)/fft(in) and the plane-wave generator (props/c12.py)", "Drv/C12.lean JSON glue, Float.exp/cos/sin, float bit decoding (Model/C12.fracOfBits)",
+           "the symbolic path/alpha-renaming dump of the translator (props/c12.py flow_paths/body_dump)"]
 
 REL_MAP = "cryocat/cryomap.py"
 REL_MASK = "cryocat/cryomask.py"
 
 
 # ------------------------------------------------------------------ translator
+# Anchors compare STRUCTURE and do not depend on the names of local variables: a function body is executed symbolically, every
+# local variable is replaced by the expression it holds (parameters keep their names: they are API), and what is compared is, per
+# control-flow path, the conditions taken, the calls made for their effect and the returned expression ("flow" anchors); bodies with
+# in-place array statements are dumped whole with the locals renamed L0, L1, ... in order of first assignment ("body" anchors).
+# Missing anchors fall back to the DOCUMENTED value (never to a value that would silently change the model) and set anchorsOk = false.
+import copy as _copy
+
+
 def _norm(n):
     return core.norm_expr(n)
 
 
-def _calls(fn, attr):
-    return [n for n in ast.walk(fn) if isinstance(n, ast.Call) and ((isinstance(n.func, ast.Attribute) and n.func.attr == attr) or (isinstance(n.func, ast.Name) and n.func.id == attr))]
+def _n1(node):
+    return ast.unparse(node).replace(" ", "").replace("\n", ";")
+
+
+def _has_call(e):
+    return any(isinstance(x, ast.Call) for x in ast.walk(e))
+
+
+class _Subst(ast.NodeTransformer):
+    def __init__(self, env, used):
+        self.env, self.used = env, used
+
+    def visit_Name(self, n):
+        if isinstance(n.ctx, ast.Load) and n.id in self.env:
+            self.used.add(n.id)
+            return _copy.deepcopy(self.env[n.id])
+        return n
+
+
+class _State:
+    def __init__(self, env=None, conds=None, effects=None, used=None, order=None):
+        self.env = dict(env or {})
+        self.conds = list(conds or [])
+        self.effects = list(effects or [])
+        self.used = set(used or ())
+        self.order = list(order or [])
+        self.done = None          # text
+        self.ret = None           # ast of the returned expression
+
+    def fork(self):
+        return _State(self.env, self.conds, self.effects, self.used, self.order)
+
+    def sub(self, e):
+        return _Subst(self.env, self.used).visit(_copy.deepcopy(e))
+
+    def bind(self, name, val):
+        if name in self.env and name not in self.used and _has_call(self.env[name]):
+            self.effects.append("discarded:" + _n1(self.env[name]))     # computed by a call, overwritten unread: ran for its effect
+        self.env[name] = val
+        self.used.discard(name)
+        self.order.append(name)
+
+
+def _store(st, target, val):
+    if isinstance(target, ast.Name):
+        st.bind(target.id, val)
+    elif isinstance(target, (ast.Tuple, ast.List)):
+        for i, t in enumerate(target.elts):
+            _store(st, t, ast.Subscript(value=val, slice=ast.Constant(i), ctx=ast.Load()))
+    elif isinstance(target, (ast.Subscript, ast.Attribute)) and isinstance(target.value, ast.Name):
+        b = target.value.id
+        old = st.sub(ast.Name(id=b, ctx=ast.Load()))
+        key = st.sub(target.slice) if isinstance(target, ast.Subscript) else ast.Constant(target.attr)
+        st.bind(b, ast.Call(func=ast.Name(id="SET", ctx=ast.Load()), args=[old, key, val], keywords=[]))
+    else:
+        st.effects.append("store:" + _n1(st.sub(target)) + "=" + _n1(val))
+
+
+def _exec(stmts, states, fnames):
+    for s in stmts:
+        live = [x for x in states if x.done is None]
+        if not live:
+            break
+        nxt = [x for x in states if x.done is not None]
+        for st in live:
+            if isinstance(s, ast.Expr) and isinstance(s.value, ast.Constant):
+                nxt.append(st)
+            elif isinstance(s, ast.Assign):
+                v = st.sub(s.value)
+                for t in s.targets:
+                    _store(st, t, v)
+                nxt.append(st)
+            elif isinstance(s, ast.AnnAssign) and s.value is not None:
+                _store(st, s.target, st.sub(s.value))
+                nxt.append(st)
+            elif isinstance(s, ast.AugAssign):
+                cur = st.sub(ast.Name(id=s.target.id, ctx=ast.Load())) if isinstance(s.target, ast.Name) else st.sub(_copy.deepcopy(s.target))
+                _store(st, s.target, ast.BinOp(left=cur, op=s.op, right=st.sub(s.value)))
+                nxt.append(st)
+            elif isinstance(s, ast.Expr):
+                st.effects.append(_n1(st.sub(s.value)))
+                nxt.append(st)
+            elif isinstance(s, ast.Return):
+                st.ret = st.sub(s.value) if s.value is not None else ast.Constant(None)
+                st.done = "return " + _n1(st.ret)
+                nxt.append(st)
+            elif isinstance(s, ast.Raise):
+                e = s.exc
+                st.done = "raise " + (_n1(e.func) if isinstance(e, ast.Call) else (_n1(e) if e is not None else ""))
+                nxt.append(st)
+            elif isinstance(s, ast.If):
+                t = _n1(st.sub(s.test))
+                a, b = st.fork(), st.fork()
+                a.conds.append(t)
+                b.conds.append("not(" + t + ")")
+                nxt += _exec(s.body, [a], fnames) + _exec(s.orelse, [b], fnames)
+            elif isinstance(s, ast.FunctionDef):
+                fnames.append(s.name)
+                st.bind(s.name, ast.Name(id=f"FN{fnames.index(s.name)}", ctx=ast.Load()))
+                nxt.append(st)
+            elif isinstance(s, ast.Pass):
+                nxt.append(st)
+            else:   # loops, with, try, ...: kept as an opaque statement; the names it binds become opaque
+                st.effects.append(type(s).__name__ + ":" + _n1(st.sub(s)))
+                for x in ast.walk(s):
+                    if isinstance(x, ast.Name) and isinstance(x.ctx, ast.Store):
+                        st.env[x.id] = ast.Name(id="OPAQUE", ctx=ast.Load())
+                nxt.append(st)
+        states = nxt
+    return states
+
+
+def _states(fn):
+    return _exec(fn.body, [_State()], [])
+
+
+def _path_text(st):
+    eff = list(st.effects)
+    for name in dict.fromkeys(st.order):
+        if name in st.env and name not in st.used and _has_call(st.env[name]):
+            eff.append("unused:" + _n1(st.env[name]))       # bound to the result of a call and never read on this path
+    return "[" + "&".join(st.conds) + "]" + ";".join(eff + [st.done or "return None"])
+
+
+def flow_paths(fn):
+    """every control-flow path of the function: '[conditions]effect;...;return EXPR' with local variables inlined"""
+    return [_path_text(st) for st in _states(fn)]
+
+
+def body_dump(fn):
+    """all statements of the body (docstrings dropped) as 'depth:text' with local variables renamed L0, L1, ... in order of first store"""
+    params = {a.arg for a in fn.args.args + fn.args.kwonlyargs + fn.args.posonlyargs} | ({fn.args.vararg.arg} if fn.args.vararg else set()) | ({fn.args.kwarg.arg} if fn.args.kwarg else set())
+    names = {}
+
+    class Collect(ast.NodeVisitor):
+        def visit_Name(self, n):
+            if isinstance(n.ctx, ast.Store) and n.id not in params and n.id not in names:
+                names[n.id] = f"L{len(names)}"
+
+        def visit_FunctionDef(self, n):
+            if n is not fn and n.name not in names:
+                names[n.name] = f"L{len(names)}"
+            inner = {a.arg for a in n.args.args} if n is not fn else set()
+            for a in sorted(inner - params):
+                names.setdefault(a, f"L{len(names)}")
+            self.generic_visit(n)
+
+    Collect().visit(fn)
+
+    class Ren(ast.NodeTransformer):
+        def visit_Name(self, n):
+            return ast.Name(id=names.get(n.id, n.id), ctx=n.ctx)
+
+        def visit_arg(self, n):
+            return ast.arg(arg=names.get(n.arg, n.arg), annotation=None)
+
+        def visit_FunctionDef(self, n):
+            self.generic_visit(n)
+            n.name = names.get(n.name, n.name)
+            return n
+
+        def visit_Expr(self, n):
+            return None if isinstance(n.value, ast.Constant) and isinstance(n.value.value, str) else self.generic_visit(n)
+
+    f2 = Ren().visit(_copy.deepcopy(fn))
+    out = []
+    for st in f2.body:
+        for line in ast.unparse(st).split("\n"):
+            depth = (len(line) - len(line.lstrip())) // 4
+            out.append(f"{depth}:" + line.strip().replace(" ", ""))
+    return out
+
+
+def signature(fn):
+    return _n1(fn.args)
+
+
+def _calls(node, attr):
+    """calls of a function named attr (plain or attribute access), in source order (outermost first, left to right)"""
+    out = []
+
+    def walk(n):
+        if isinstance(n, ast.Call) and ((isinstance(n.func, ast.Attribute) and n.func.attr == attr) or (isinstance(n.func, ast.Name) and n.func.id == attr)):
+            out.append(n)
+        for ch in ast.iter_child_nodes(n):
+            walk(ch)
+    walk(node)
+    return out
 
 
 def _kw(call, name):
@@ -92,27 +295,43 @@ def _kw(call, name):
     return None
 
 
-def _assigned(fn, var):
-    for st in ast.walk(fn):
-        if isinstance(st, ast.Assign) and len(st.targets) == 1 and isinstance(st.targets[0], ast.Name) and st.targets[0].id == var:
-            return st.value
-    raise core.AnchorMissing(f"{fn.name}: no assignment to {var}")
+def _arg(call, pos, name):
+    v = _kw(call, name)
+    if v is None and len(call.args) > pos:
+        v = call.args[pos]
+    return v
+
+
+def _default_of(fn, name):
+    names = [a.arg for a in fn.args.args]
+    if name not in names:
+        raise core.AnchorMissing(f"{fn.name}: no parameter {name}")
+    i = names.index(name) - (len(names) - len(fn.args.defaults))
+    if i < 0:
+        raise core.AnchorMissing(f"{fn.name}: parameter {name} has no default")
+    return fn.args.defaults[i]
+
+
+DOC_SIGMA = {"low": 3.0, "high": 2.0, "lp": 3.0, "hp": 2.0}      # the documented defaults of gaussian / lp_gaussian / hp_gaussian
+DOC_DEFAULTS = [("lowpass.gaussian", "3"), ("highpass.gaussian", "2"), ("bandpass.lp_gaussian", "3"), ("bandpass.hp_gaussian", "2")]
+
+
+def _returned(src, fname):
+    """the returned expression (locals inlined) of the path of a filter that writes no output file"""
+    sts = [st for st in _states(src.find(REL_MAP, fname)) if st.ret is not None and "not(output_nameisnotNone)" in st.conds]
+    if len(sts) != 1:
+        raise core.AnchorMissing(f"{fname}: expected one returning path without output_name, found {len(sts)}")
+    return sts[0].ret
 
 
 def _mask_calls(src):
-    """the four spherical_mask calls in source order: lowpass, highpass, bandpass outer, bandpass inner"""
+    """the four spherical_mask calls inside the returned expressions, in order: lowpass, highpass, bandpass first operand, second operand"""
     out = []
-    for f in ("lowpass", "highpass"):
-        cs = _calls(src.find(REL_MAP, f), "spherical_mask")
-        if len(cs) != 1:
-            raise core.AnchorMissing(f"{f}: expected one spherical_mask call, found {len(cs)}")
-        out.append(cs[0])
-    bp = src.find(REL_MAP, "bandpass")
-    for var in ("outer_mask", "inner_mask"):
-        v = _assigned(bp, var)
-        if not (isinstance(v, ast.Call) and _norm(v.func).endswith("spherical_mask")):
-            raise core.AnchorMissing(f"bandpass: {var} is not a spherical_mask call")
-        out.append(v)
+    for f, n in (("lowpass", 1), ("highpass", 1), ("bandpass", 2)):
+        cs = _calls(_returned(src, f), "spherical_mask")
+        if len(cs) != n:
+            raise core.AnchorMissing(f"{f}: expected {n} spherical_mask call(s) in the returned expression, found {len(cs)}")
+        out += cs
     return out
 
 
@@ -124,217 +343,230 @@ def _lean_bools(bs):
     return "[" + ", ".join("true" if b else "false" for b in bs) + "]"
 
 
+def _lean_named_lists(ps):
+    return "[" + ",\n  ".join(f"({core.lean_str(a)}, {core.lean_str_list(b)})" for a, b in ps) + "]"
+
+
+FLOW_FUNCS = [(REL_MAP, "lowpass"), (REL_MAP, "highpass"), (REL_MAP, "bandpass"), (REL_MAP, "get_filter_radius"), (REL_MAP, "resolution2pixels"),
+              (REL_MAP, "pixels2resolution"), (REL_MASK, "preprocess_params"), (REL_MASK, "postprocess"), (REL_MASK, "add_gaussian"),
+              (REL_MASK, "rotate"), (REL_MASK, "write_out")]
+BODY_FUNCS = [(REL_MASK, "spherical_mask"), (REL_MASK, "get_correct_format")]
+SIG_FUNCS = [(REL_MAP, "lowpass"), (REL_MAP, "highpass"), (REL_MAP, "bandpass"), (REL_MAP, "get_filter_radius"), (REL_MAP, "resolution2pixels"),
+             (REL_MAP, "pixels2resolution"), (REL_MASK, "spherical_mask")]
+
+
 def translate(src):
     def outwards():
         res = []
         for c in _mask_calls(src):
-            v = _kw(c, "gaussian_outwards")
+            v = _arg(c, 4, "gaussian_outwards")
             if v is None:      # the default of spherical_mask
-                d = src.find(REL_MASK, "spherical_mask").args
-                names = [a.arg for a in d.args]
-                dv = d.defaults[names.index("gaussian_outwards") - (len(names) - len(d.defaults))]
-                res.append(bool(src.literal(dv)))
-            else:
-                res.append(bool(src.literal(v)))
+                v = _default_of(src.find(REL_MASK, "spherical_mask"), "gaussian_outwards")
+            res.append(bool(src.literal(v)))
         return res
 
     def mask_args():
         res = []
         for c in _mask_calls(src):
-            rad = c.args[1] if len(c.args) > 1 else _kw(c, "radius")
-            g = _kw(c, "gaussian") if _kw(c, "gaussian") is not None else (c.args[3] if len(c.args) > 3 else None)
+            rad, g = _arg(c, 1, "radius"), _arg(c, 3, "gaussian")
             if rad is None or g is None:
                 raise core.AnchorMissing("spherical_mask call without radius/gaussian")
             res.append([_norm(rad), _norm(g)])
         return res
 
     def mask_shapes():
-        return [_norm(c.args[0]) if c.args else _norm(_kw(c, "mask_size")) for c in _mask_calls(src)]
+        return [_norm(_arg(c, 0, "mask_size")) for c in _mask_calls(src)]
 
     def apply_exprs():
         res = []
-        for f, ret, filt in (("lowpass", "filtered_map", "lowpass_filter"), ("highpass", "filtered_map", "highpass_filter"), ("bandpass", "bandpass_filtered", "band_mask")):
-            fn = src.find(REL_MAP, f)
-            e = _norm(_assigned(fn, ret))
-            fe = _assigned(fn, filt)
-            ft = _norm(fe)
-            for c in _calls(fe, "spherical_mask"):
-                ft = ft.replace(_norm(c), "MASK")
-            if e.count(filt) != 1:
-                raise core.AnchorMissing(f"{f}: {ret} does not use {filt} exactly once")
-            rets = [n for n in ast.walk(fn) if isinstance(n, ast.Return)]
-            if len(rets) != 1 or _norm(rets[0].value) != ret:
-                raise core.AnchorMissing(f"{f}: does not return {ret}")
-            res.append(e.replace(filt, ft))
+        for f in ("lowpass", "highpass", "bandpass"):
+            r = _returned(src, f)
+            txt = _norm(r)
+            for i, c in enumerate(_calls(r, "spherical_mask")):
+                txt = txt.replace(_norm(c), f"MASK{i+1}", 1)
+            if "spherical_mask" in txt:
+                raise core.AnchorMissing(f"{f}: a spherical_mask call is left after substitution")
+            res.append(txt)
         return res
+
+    def radius_calls():
+        out = []
+        for c in _mask_calls(src):
+            rad = _arg(c, 1, "radius")
+            if not (isinstance(rad, ast.Call) and _norm(rad.func).endswith("get_filter_radius")):
+                raise core.AnchorMissing("the mask radius is not the result of get_filter_radius: " + _norm(rad)[:80])
+            out.append(rad)
+        return out
 
     def box_edges():
-        res = []
-        for f, n in (("lowpass", 1), ("highpass", 1), ("bandpass", 2)):
-            cs = _calls(src.find(REL_MAP, f), "get_filter_radius")
-            if len(cs) != n:
-                raise core.AnchorMissing(f"{f}: expected {n} get_filter_radius call(s)")
-            res += [_norm(c.args[0]) if c.args else _norm(_kw(c, "edge_size")) for c in cs]
-        return res
+        return [_norm(_arg(c, 0, "edge_size")) for c in radius_calls()]
 
     def band_radius_args():
-        bp = src.find(REL_MAP, "bandpass")
         res = []
-        for var in ("lp_radius", "hp_radius"):
-            c = _assigned(bp, var)
+        for c in radius_calls()[2:]:
             if _kw(c, "pixel_size") is None or _norm(_kw(c, "pixel_size")) != "pixel_size":
-                raise core.AnchorMissing(f"bandpass: {var} without pixel_size=pixel_size")
-            res.append([_norm(_kw(c, "fourier_pixels")), _norm(_kw(c, "target_resolution"))])
+                raise core.AnchorMissing("bandpass: get_filter_radius without pixel_size=pixel_size")
+            res.append([_norm(_arg(c, 1, "fourier_pixels")), _norm(_arg(c, 2, "target_resolution"))])
         return res
-
-    def single_value(fname, var):
-        return _norm(_assigned(src.find(REL_MAP, fname), var))
 
     def lp_hp_direct():
         """lowpass/highpass hand their own keywords to get_filter_radius unchanged"""
-        for f in ("lowpass", "highpass"):
-            c = _calls(src.find(REL_MAP, f), "get_filter_radius")[0]
-            got = [_norm(_kw(c, k)) if _kw(c, k) is not None else None for k in ("fourier_pixels", "target_resolution", "pixel_size")]
+        for f, c in zip(("lowpass", "highpass"), radius_calls()[:2]):
+            got = [_norm(v) if v is not None else None for v in (_arg(c, 1, "fourier_pixels"), _arg(c, 2, "target_resolution"), _arg(c, 3, "pixel_size"))]
             if got != ["fourier_pixels", "target_resolution", "pixel_size"]:
-                raise core.AnchorMissing(f"{f}: get_filter_radius keywords {got}")
-            rv = _assigned(src.find(REL_MAP, f), "radius")
-            if rv is not c:
-                raise core.AnchorMissing(f"{f}: radius is not the get_filter_radius result")
+                raise core.AnchorMissing(f"{f}: get_filter_radius arguments {got}")
         return True
+
+    def single_return(fname):
+        """the expression a two-path helper (print or not) returns"""
+        rs = {_norm(st.ret) for st in _states(src.find(REL_MAP, fname)) if st.ret is not None}
+        if len(rs) != 1:
+            raise core.AnchorMissing(f"{fname}: returns {sorted(rs)}")
+        return rs.pop()
 
     def filter_radius_branches():
         fn = src.find(REL_MAP, "get_filter_radius")
         top = [s for s in fn.body if isinstance(s, ast.If)]
         if len(top) != 1:
             raise core.AnchorMissing("get_filter_radius: expected one if-chain")
+        rets = [n for n in ast.walk(fn) if isinstance(n, ast.Return)]
+        if len(rets) != 1 or not isinstance(rets[0].value, ast.Name):
+            raise core.AnchorMissing("get_filter_radius: does not return one variable")
+        rv = rets[0].value.id
+
+        def value(stmts):
+            val = None
+            for s in stmts:
+                if isinstance(s, ast.Assign) and _norm(s.targets[0]) == rv:
+                    val = _norm(s.value)
+                if isinstance(s, ast.Raise):
+                    val = "raise " + _norm(s.exc.func)
+            return val
         res = []
         node = top[0]
         while True:
-            val = None
-            for s in node.body:
-                if isinstance(s, ast.Assign) and _norm(s.targets[0]) == "radius":
-                    val = _norm(s.value)
-                if isinstance(s, ast.Raise):
-                    val = "raise " + _norm(s.exc.func)
-            res.append([ast.unparse(node.test), val])
+            res.append([ast.unparse(node.test), value(node.body)])
             if len(node.orelse) == 1 and isinstance(node.orelse[0], ast.If):
                 node = node.orelse[0]
                 continue
-            val = None
-            for s in node.orelse:
-                if isinstance(s, ast.Assign) and _norm(s.targets[0]) == "radius":
-                    val = _norm(s.value)
-                if isinstance(s, ast.Raise):
-                    val = "raise " + _norm(s.exc.func)
-            res.append(["else", val])
+            res.append(["else", value(node.orelse)])
             break
-        rets = [n for n in ast.walk(fn) if isinstance(n, ast.Return)]
-        if len(rets) != 1 or _norm(rets[0].value) != "radius":
-            raise core.AnchorMissing("get_filter_radius: does not return radius")
         return res
-
-    def sphere_statements():
-        fn = src.find(REL_MASK, "spherical_mask")
-        def keep(s):
-            t = _norm(s.targets[0])
-            return (t == "mask" or t.startswith("mask[") or "mgrid" in _norm(s.value)) and "postprocess" not in _norm(s)
-        return [_norm(s) for s in fn.body if isinstance(s, ast.Assign) and keep(s)]
 
     def sphere_strict():
         fn = src.find(REL_MASK, "spherical_mask")
-        for s in fn.body:
+        for s in fn.body:   # ARR[ARR > R] = 0 : the only store of a 0 under a comparison of the array with a plain name
             if isinstance(s, ast.Assign) and isinstance(s.targets[0], ast.Subscript) and isinstance(s.targets[0].slice, ast.Compare):
                 cmp_ = s.targets[0].slice
-                if _norm(cmp_.comparators[0]) == "radius" and _norm(cmp_.left) == "mask":
+                zero = isinstance(s.value, ast.Constant) and s.value.value == 0
+                if zero and isinstance(cmp_.comparators[0], ast.Name) and _norm(cmp_.left) == _norm(s.targets[0].value):
                     if isinstance(cmp_.ops[0], ast.Gt):
                         return True
                     if isinstance(cmp_.ops[0], ast.GtE):
                         return False
         raise core.AnchorMissing("spherical_mask: mask[mask > radius] = 0")
 
-    def sphere_chain():
-        """radius passes through preprocess_params(radius, gaussian, gaussian_outwards); result through postprocess(mask, gaussian, 0-angles, ...)"""
-        fn = src.find(REL_MASK, "spherical_mask")
-        r = _norm(_assigned(fn, "radius")) if False else None
-        txt = [_norm(s) for s in fn.body]
-        need = ["radius=preprocess_params(radius,gaussian,gaussian_outwards)", "mask=postprocess(mask,gaussian,np.asarray([0,0,0]),output_name)",
-                "center=get_correct_format(center,reference_size=mask_size)", "mask_size=get_correct_format(mask_size)"]
-        for n in need:
-            if n not in txt:
-                raise core.AnchorMissing(f"spherical_mask: statement {n}")
-        pp = [_norm(s) for s in src.find(REL_MASK, "postprocess").body]
-        if "mask=add_gaussian(input_mask,gaussian)" not in pp:
-            raise core.AnchorMissing("postprocess: mask=add_gaussian(input_mask,gaussian)")
-        return True
-
     def centre_expr():
         fn = src.find(REL_MASK, "get_correct_format")
-        for s in ast.walk(fn):
-            if isinstance(s, ast.Assign) and _norm(s.targets[0]) == "size_correct_format" and isinstance(s.value, ast.BinOp):
-                return _norm(s.value)
-        raise core.AnchorMissing("get_correct_format: size_correct_format = box_size // 2")
+        rs = [st for st in _states(fn) if st.ret is not None and "not(input_valueisnotNone)" in st.conds]
+        if len(rs) != 1:
+            raise core.AnchorMissing("get_correct_format: the reference_size path")
+        return _norm(rs[0].ret)
+
+    def one_path(fname, k):
+        ps = [st for st in _states(src.find(REL_MASK, fname))]
+        if len(ps) != 2:
+            raise core.AnchorMissing(f"{fname}: expected two paths")
+        return ps[k]
 
     def enlarge_cond():
-        fn = src.find(REL_MASK, "preprocess_params")
-        ifs = [s for s in fn.body if isinstance(s, ast.If)]
-        if len(ifs) != 1 or _norm(ifs[0].orelse[0]) != "new_radius=radius":
-            raise core.AnchorMissing("preprocess_params: if/else new_radius = radius")
-        return ast.unparse(ifs[0].test).replace(" ", "").replace("and", " and ")
+        a, b = one_path("preprocess_params", 0), one_path("preprocess_params", 1)
+        if _norm(b.ret) != "radius":
+            raise core.AnchorMissing("preprocess_params: the other path does not return the radius unchanged")
+        return a.conds[0].replace("and", " and ")
 
     def blur_skip():
-        fn = src.find(REL_MASK, "add_gaussian")
-        ifs = [s for s in fn.body if isinstance(s, ast.If)]
-        if len(ifs) != 1 or _norm(ifs[0].body[0]) != "returninput_mask":
-            raise core.AnchorMissing("add_gaussian: if sigma == 0: return input_mask")
-        return _norm(ifs[0].test), _norm(ifs[0].orelse[0].value)
+        a, b = one_path("add_gaussian", 0), one_path("add_gaussian", 1)
+        if _norm(a.ret) != "input_mask":
+            raise core.AnchorMissing("add_gaussian: the skip path does not return the mask unchanged")
+        return a.conds[0], _norm(b.ret)
+
+    def defaults():
+        res = []
+        for key, _ in DOC_DEFAULTS:
+            f, p = key.split(".")
+            res.append([key, _norm(_default_of(src.find(REL_MAP, f), p))])
+        return res
+
+    def flows():
+        return [[f, flow_paths(src.find(rel, f))] for rel, f in FLOW_FUNCS]
+
+    def bodies():
+        res = [[f, body_dump(src.find(rel, f))] for rel, f in BODY_FUNCS]
+        # cryomap.read on an array: the paths that take the ndarray branch (the caller's array is copied, never aliased)
+        rd = [p for p in flow_paths(src.find(REL_MAP, "read")) if "isinstance(input_map,np.ndarray)" in p.split("]")[0].split("&")]
+        res.append(["read[ndarray]", rd])
+        return res
+
+    def sigs():
+        return [[f, signature(src.find(rel, f))] for rel, f in SIG_FUNCS]
 
     ow = src.anchor("spherical_mask(gaussian_outwards=False) at the 4 call sites", outwards)
-    ma = src.anchor("spherical_mask radius/gaussian arguments", mask_args)
+    ma = src.anchor("spherical_mask radius/gaussian arguments (locals inlined)", mask_args)
     ms = src.anchor("spherical_mask box argument", mask_shapes)
     ae = src.anchor("np.real(ifftn(fftn(input_map) * ifftshift(...))) in lowpass/highpass/bandpass", apply_exprs)
     be = src.anchor("get_filter_radius(input_map.shape[0], ...)", box_edges)
     br = src.anchor("bandpass lp_/hp_ keyword routing", band_radius_args)
     src.anchor("lowpass/highpass keyword routing", lp_hp_direct)
-    r2p = src.anchor("resolution2pixels expression", lambda: single_value("resolution2pixels", "pixels"))
-    p2r = src.anchor("pixels2resolution expression", lambda: single_value("pixels2resolution", "res"))
+    r2p = src.anchor("resolution2pixels expression", lambda: single_return("resolution2pixels"))
+    p2r = src.anchor("pixels2resolution expression", lambda: single_return("pixels2resolution"))
     fb = src.anchor("get_filter_radius branches", filter_radius_branches)
     st = src.anchor("spherical_mask: mask > radius", sphere_strict)
-    ss = src.anchor("spherical_mask statements", sphere_statements)
-    src.anchor("spherical_mask: preprocess_params/postprocess/add_gaussian chain", sphere_chain)
     ce = src.anchor("get_correct_format: centre", centre_expr)
     ec = src.anchor("preprocess_params: enlarge condition", enlarge_cond)
     bs = src.anchor("add_gaussian: skip and blur call", blur_skip)
+    df = src.anchor("signature defaults of gaussian / lp_gaussian / hp_gaussian", defaults)
+    sg = src.anchor("signatures of the filters and helpers", sigs)
+    fl = src.anchor("control-flow paths (effects, returned expressions) of the filters and helpers", flows)
+    bd = src.anchor("statement dumps of spherical_mask, get_correct_format, read[ndarray]", bodies)
     S = core.lean_str
-    ow = ow if ow is not None else []
     return f"""-- GENERATED by harness/props/c12.py from {REL_MAP}, {REL_MASK}; do not edit
 namespace CryoCat.Gen.C12
 def anchorsOk : Bool := {"true" if src.ok else "false"}
-/-- `gaussian_outwards=` at the call sites lowpass, highpass, bandpass(outer), bandpass(inner) -/
-def outwardsFlags : List Bool := {_lean_bools(ow)}
-/-- (radius, gaussian) arguments of the spherical_mask calls: lowpass, highpass, bandpass outer, bandpass inner -/
+/-- `gaussian_outwards=` at the call sites lowpass, highpass, bandpass(first mask), bandpass(second mask) -/
+def outwardsFlags : List Bool := {_lean_bools(ow if ow is not None else [False] * 4)}
+/-- (radius, gaussian) arguments of the spherical_mask calls with local variables inlined: lowpass, highpass, bandpass first and second operand -/
 def maskArgs : List (String × String) := {_lean_pairs(ma or [])}
 /-- first argument (box) of the spherical_mask calls -/
 def maskShapes : List String := {core.lean_str_list(ms or [])}
-/-- the returned expression of lowpass / highpass / bandpass with the filter variable resolved -/
+/-- the returned expression of lowpass / highpass / bandpass with local variables inlined and the mask calls named in order of appearance -/
 def applyExprs : List String := {core.lean_str_list(ae or [])}
 /-- edge size handed to get_filter_radius: lowpass, highpass, bandpass lp, bandpass hp -/
 def boxEdges : List String := {core.lean_str_list(be or [])}
-/-- which keyword feeds which radius in bandpass: (fourier_pixels=, target_resolution=) for lp_radius, hp_radius -/
+/-- which keyword feeds which radius in bandpass: (fourier_pixels=, target_resolution=) for the first and the second mask -/
 def bandRadiusArgs : List (String × String) := {_lean_pairs(br or [])}
 def res2pixExpr : String := {S(r2p or "")}
 def pix2resExpr : String := {S(p2r or "")}
 /-- get_filter_radius: test order and the values taken -/
 def filterRadiusBranches : List (String × String) := {_lean_pairs([(a, b or "") for a, b in (fb or [])])}
-/-- spherical_mask: `mask[mask > radius] = 0` uses a strict comparison -/
-def sphereOutsideStrict : Bool := {"true" if st else "false"}
-def sphereStatements : List String := {core.lean_str_list(ss or [])}
-/-- get_correct_format: default centre -/
+/-- spherical_mask: `mask[mask > radius] = 0` uses a strict comparison (documented value when the anchor is missing) -/
+def sphereOutsideStrict : Bool := {"true" if (st is None or st) else "false"}
+/-- get_correct_format: default centre (inner helper = FN0) -/
 def centreExpr : String := {S(ce or "")}
 /-- preprocess_params: the radius is enlarged only under this condition -/
 def enlargeCond : String := {S(ec or "")}
 /-- add_gaussian: pass-through test and blur call -/
 def blurSkipCond : String := {S(bs[0] if bs else "")}
 def blurCall : String := {S(bs[1] if bs else "")}
+/-- signature defaults the statement's "Gaussian edge of width sigma" falls back to when the keyword is omitted -/
+def defaultSigmas : List (String × String) := {_lean_pairs(df if df is not None else DOC_DEFAULTS)}
+def signatures : List (String × String) := {_lean_pairs(sg or [])}
+/-- per function: every control-flow path as `[conditions]effects;return EXPR`, local variables inlined -/
+def flowPaths : List (String × List String) := {_lean_named_lists(fl or [])}
+/-- per function: all statements as `depth:text`, local variables renamed L0, L1, ... in order of first assignment -/
+def bodyDumps : List (String × List String) := {_lean_named_lists(bd or [])}
+/-- kept name: the statements of spherical_mask (= its entry in `bodyDumps`) -/
+def sphereStatements : List String := {core.lean_str_list(dict((a, b) for a, b in (bd or [])).get("spherical_mask", []))}
 end CryoCat.Gen.C12
 """
 
@@ -392,38 +624,72 @@ def py_radius(case, cut):
     return round(case["dims"][0] * b2f(case["px"]) / b2f(cut["res"]))
 
 
+def _sigma_kwargs(case):
+    """the Gaussian-width keywords the adapter passes: none for the widths listed in case['omit'] (then the signature default applies)"""
+    omit = set(case.get("omit", []))
+    if case["kind"] == "band":
+        kw = {}
+        if "lp_sigma" not in omit:
+            kw["lp_gaussian"] = b2f(case["lp_sigma"])
+        if "hp_sigma" not in omit:
+            kw["hp_gaussian"] = b2f(case["hp_sigma"])
+        return kw
+    return {} if "sigma" in omit else {"gaussian": b2f(case["sigma"])}
+
+
 class _Filter:
-    """the real cryoCAT call for one case; `low(which)` = companion low-pass with the same parameters"""
+    """the real cryoCAT call for one case; `low(which)` = companion low-pass with the same parameters. Every call goes through `_call`,
+    which compares the caller-owned input array before/after the call (G2) and records what came back (G3)."""
 
     def __init__(self, case):
         from cryocat import cryomap
         self.m = cryomap
         self.case = case
         self.px = b2f(case["px"]) if "px" in case else None
+        self.mutated = []        # names of the calls after which the caller's array had changed
+        self.ncalls = 0
 
-    def _quiet(self, fn, *a, **k):
+    def _call(self, fn, x, **k):
+        x0 = x.copy()
+        self.ncalls += 1
         with contextlib.redirect_stdout(io.StringIO()):
-            return fn(*a, **k)
+            y = fn(x, **k)
+        if not (x.shape == x0.shape and x.dtype == x0.dtype and np.array_equal(x, x0)):
+            self.mutated.append(f"{fn.__name__}#{self.ncalls}")
+            x[...] = x0          # the harness goes on with the input it meant to use
+        return y
 
-    def __call__(self, x):
+    def _px_kw(self, explicit=False):
+        if self.px is None and (self.case.get("omit_px") and not explicit):
+            return {}
+        return {"pixel_size": self.px}
+
+    def __call__(self, x, explicit=False):
+        """explicit=True: every keyword written out with the DOCUMENTED defaults in place of the omitted ones"""
         c = self.case
+        sk = _sigma_kwargs(c if not explicit else dict(c, omit=[]))
         if c["kind"] == "band":
             kw = dict(_cut_kwargs(c["lp"], "lp_"), **_cut_kwargs(c["hp"], "hp_"))
-            return self._quiet(self.m.bandpass, x, pixel_size=self.px, lp_gaussian=b2f(c["lp_sigma"]), hp_gaussian=b2f(c["hp_sigma"]), **kw)
+            return self._call(self.m.bandpass, x, **self._px_kw(explicit), **sk, **kw)
         fn = self.m.lowpass if c["kind"] == "low" else self.m.highpass
-        return self._quiet(fn, x, pixel_size=self.px, gaussian=b2f(c["sigma"]), **_cut_kwargs(c["cut"]))
+        return self._call(fn, x, **self._px_kw(explicit), **sk, **_cut_kwargs(c["cut"]))
 
-    def low(self, x, which):
+    def single(self, x, kind, which):
+        """low- or high-pass with the parameters of one cutoff of the case ('' = the cutoff of a low/high case, 'lp'/'hp' of a band)"""
         c = self.case
         cut, sig = (c["cut"], c["sigma"]) if which == "" else (c[which], c[which + "_sigma"])
-        return self._quiet(self.m.lowpass, x, pixel_size=self.px, gaussian=b2f(sig), **_cut_kwargs(cut))
+        fn = self.m.lowpass if kind == "low" else self.m.highpass
+        return self._call(fn, x, pixel_size=self.px, gaussian=b2f(sig), **_cut_kwargs(cut))
+
+    def low(self, x, which):
+        return self.single(x, "low", which)
 
     def with_pixels(self, x, radii):
         c = self.case
         if c["kind"] == "band":
-            return self._quiet(self.m.bandpass, x, lp_fourier_pixels=radii[0], hp_fourier_pixels=radii[1], lp_gaussian=b2f(c["lp_sigma"]), hp_gaussian=b2f(c["hp_sigma"]))
+            return self._call(self.m.bandpass, x, lp_fourier_pixels=radii[0], hp_fourier_pixels=radii[1], lp_gaussian=b2f(c["lp_sigma"]), hp_gaussian=b2f(c["hp_sigma"]))
         fn = self.m.lowpass if c["kind"] == "low" else self.m.highpass
-        return self._quiet(fn, x, fourier_pixels=radii[0], gaussian=b2f(c["sigma"]))
+        return self._call(fn, x, fourier_pixels=radii[0], gaussian=b2f(c["sigma"]))
 
 
 # ------------------------------------------------------------------ generators
@@ -448,11 +714,13 @@ def _sigma(rng):
 def _cutoff(rng, dims):
     half = min(dims) // 2
     k = rng.random()
-    if k < 0.15:
+    if k < 0.13:
         return half
-    if k < 0.25:
+    if k < 0.21:
+        return max(1, dims[0] // 2)       # exactly the Nyquist index of the FIRST axis (the edge the code calls "the box")
+    if k < 0.30:
         return 1
-    if k < 0.33:
+    if k < 0.38:
         return max(dims) // 2       # reaches beyond the shortest axis of a non-cubic box
     return rng.randint(1, half)
 
@@ -494,12 +762,36 @@ def _input(rng, dims, tier):
     return dict(type="waves", seed=rng.randrange(1 << 30), waves=ks)
 
 
+MARGIN_SIGMAS = [0.5, 0.75, 1.0, 1.0, 1.5, 1.5, 2.0]
+
+
+def _margin_case(rng, tier):
+    """a low/high-pass whose box holds bins on BOTH sides of the soft edge: radius <= cutoff-4s-1 and radius >= cutoff+4s+1"""
+    s = rng.choice(MARGIN_SIGMAS)
+    M = int(math.ceil(4 * s + 1))
+    lo = 2 * (M + 1)
+    hi = max(lo + 2, 20 if tier != "thorough" else 40)
+    if rng.random() < 0.5:
+        n = rng.randint(lo, hi)
+        dims = [n, n, n]
+    else:
+        dims = [rng.randint(lo, hi) for _ in range(3)]
+    r = rng.randint(M, min(dims) // 2) if rng.random() < 0.8 else rng.randint(M, max(dims) // 2)
+    return dict(dims=dims, kind=rng.choice(["low", "low", "high"]), cut=dict(fp=r), sigma=f2b(s), input=dict(type="field", seed=rng.randrange(1 << 30)),
+                aux=rng.randrange(1 << 30), stream="margin")
+
+
 def _one(rng, tier):
+    if rng.random() < 0.12:
+        case = _margin_case(rng, tier)
+        _history(rng, case)
+        return case
     dims = _dims(rng, tier)
     kind = rng.choice(["low", "low", "high", "band"])
     cubic = dims[0] == dims[1] == dims[2]
     case = dict(dims=dims, kind=kind, input=_input(rng, dims, tier), aux=rng.randrange(1 << 30))
-    use_res = cubic and rng.random() < 0.35
+    # the resolution form on every box: the documented box edge of a non-cubic map is shape[0] (Props/C12.box_edge_documented)
+    use_res = rng.random() < (0.35 if cubic else 0.3)
 
     def mk(r):
         if use_res:
@@ -516,17 +808,55 @@ def _one(rng, tier):
     if kind == "band":
         lp = _cutoff(rng, dims)
         hp = rng.randint(1, max(1, lp - 1)) if rng.random() < 0.85 else _cutoff(rng, dims)
-        if rng.random() < 0.45:
+        k = rng.random()
+        if k < 0.40:
             s = _sigma(rng)
             sl, sh = s, s
-        elif rng.random() < 0.3:
+        elif k < 0.55:
             sl, sh = 3.0, 2.0     # the defaults of bandpass
+        elif k < 0.70 and lp >= 3:
+            # a narrow band whose low-pass edge is clearly softer than its high-pass edge (the inner mask exceeds the outer one locally)
+            hp = rng.randint(max(1, lp - 3), lp - 1)
+            sl, sh = rng.choice([(4.0, 1.0), (3.0, 0.0), (3.0, 1.0), (2.0, 0.5), (4.0, 2.0)])
         else:
             sl, sh = _sigma(rng), _sigma(rng)
         case.update(lp=mk(lp), hp=mk(hp), lp_sigma=f2b(sl), hp_sigma=f2b(sh))
     else:
-        case.update(cut=mk(_cutoff(rng, dims)), sigma=f2b(_sigma(rng)))
+        r = _cutoff(rng, dims)
+        s = _sigma(rng)
+        if rng.random() < 0.08:
+            r, s = max(1, dims[0] // 2), 0.0       # hard edge exactly at the Nyquist index of the first axis
+        case.update(cut=mk(r), sigma=f2b(s))
+    _defaults(rng, case)
+    _history(rng, case)
     return case
+
+
+def _defaults(rng, case):
+    """G1: in about 30 % of the cases a Gaussian-width keyword is OMITTED, so the signature default is what runs; the case then carries
+    the DOCUMENTED default as its width (that is what the statement means by 'sigma' for such a call). pixel_size is left out when unused."""
+    if "px" not in case and rng.random() < 0.5:
+        case["omit_px"] = True
+    if rng.random() >= 0.3:
+        return
+    if case["kind"] == "band":
+        om = rng.choice([["lp_sigma"], ["hp_sigma"], ["lp_sigma", "hp_sigma"], ["lp_sigma", "hp_sigma"]])
+        for k in om:
+            case[k] = f2b(DOC_SIGMA[k[:2]])
+        case["omit"] = om
+    else:
+        case["sigma"] = f2b(DOC_SIGMA[case["kind"]])
+        case["omit"] = ["sigma"]
+
+
+def _history(rng, case):
+    """G2: earlier calls in the same process on the same caller-owned array with the same box / cutoff / width"""
+    if rng.random() >= 0.2:
+        return
+    if case["kind"] == "band":
+        case["pre"] = [dict(kind=rng.choice(["high", "high", "low"]), which=rng.choice(["lp", "hp"])) for _ in range(rng.choice([1, 1, 2]))]
+    else:
+        case["pre"] = [dict(kind=rng.choice(["high", "high", "low"]), which="") for _ in range(rng.choice([1, 1, 2]))]
 
 
 def generate(rng, tier, n):
@@ -558,7 +888,14 @@ def shrink(case):
         for nd in ([8, 8, 8], [9, 9, 9], [min(d)] * 3, [max(8, x // 2) for x in d], [max(8, d[0] - 1), d[1], d[2]], [d[0], max(8, d[1] - 1), d[2]], [d[0], d[1], max(8, d[2] - 1)]):
             if nd != d:
                 yield clip(dict(case, dims=nd), nd)
-    sk = ["sigma"] if case["kind"] != "band" else ["lp_sigma", "hp_sigma"]
+    if case.get("pre"):
+        yield {k: v for k, v in case.items() if k != "pre"}
+        if len(case["pre"]) > 1:
+            yield dict(case, pre=case["pre"][:1])
+            yield dict(case, pre=case["pre"][1:])
+    if case.get("omit"):
+        yield {k: v for k, v in case.items() if k != "omit"}
+    sk = [k for k in (["sigma"] if case["kind"] != "band" else ["lp_sigma", "hp_sigma"]) if k not in case.get("omit", [])]
     for k in sk:
         if b2f(case[k]) != 0.0:
             yield dict(case, **{k: f2b(0.0)})
@@ -581,6 +918,12 @@ def _bits(a):
     return [f2b(v) for v in np.asarray(a, dtype=float).ravel().tolist()]
 
 
+def _int_like(v):
+    """(value, type name, is an integer type) of a radius the library returned — recorded as it came, not coerced (G3)"""
+    ok = isinstance(v, (int, np.integer)) and not isinstance(v, (bool, np.bool_))
+    return [int(v) if ok else repr(v)[:60], type(v).__name__, bool(ok)]
+
+
 def run_impl(case):
     from cryocat import cryomap
     dims = tuple(case["dims"])
@@ -594,14 +937,19 @@ def run_impl(case):
             aux = np.random.default_rng(case["aux"])
             inp = case["input"]
             x = _field(dims, inp["seed"])
-            xin = x.copy()
+            # G2: earlier calls of the same process on the SAME array object with the same box / cutoff / width
+            pre = []
+            for pc in case.get("pre", []):
+                pre.append(np.asarray(f.single(x, pc["kind"], pc["which"])))
             y = f(x)
+            out["ret_type"] = type(y).__name__
             out["dtype"] = str(np.asarray(y).dtype)
             out["shape"] = list(np.shape(y))
             out["finite"] = bool(np.all(np.isfinite(y))) if np.asarray(y).dtype.kind in "fc" else False
-            out["input_mutated"] = bool(not np.array_equal(x, xin))
             yc = np.asarray(y)
+            out["aliases_input"] = bool(isinstance(y, np.ndarray) and np.shares_memory(y, x))
             if yc.shape != dims or yc.dtype.kind not in "fc":
+                out["input_mutated"] = list(f.mutated)
                 return out
             X = np.fft.fftn(x)
             G = np.fft.fftn(yc) / X
@@ -613,6 +961,9 @@ def run_impl(case):
                 out["out"] = _bits(yr)
             scale = float(np.abs(x).max())
             out["scale"] = scale
+            # G1: the call with the omitted keywords against the call that writes the documented defaults out
+            if case.get("omit") or case.get("omit_px"):
+                out["default_dev"] = float(np.abs(np.asarray(f(x, explicit=True)).real - yr).max())
             # linearity
             x2 = aux.standard_normal(dims)
             a, b = [float(v) for v in aux.choice([-2.0, -0.5, 0.25, 1.0, 1.5, 3.0], 2)]
@@ -634,16 +985,20 @@ def run_impl(case):
                 radii = []
                 for c in cuts:
                     with contextlib.redirect_stdout(io.StringIO()):
-                        radii.append(int(cryomap.get_filter_radius(dims[0], case[c].get("fp"), b2f(case[c]["res"]) if "res" in case[c] else None, px)))
-                out["radii"] = radii
+                        radii.append(_int_like(cryomap.get_filter_radius(dims[0], case[c].get("fp"), b2f(case[c]["res"]) if "res" in case[c] else None, px)))
+                out["radii_typed"] = radii
+                if all(r[2] for r in radii):
+                    out["radii"] = [r[0] for r in radii]
                 r2p = []
                 for c in cuts:
                     if "res" in case[c]:
                         with contextlib.redirect_stdout(io.StringIO()):
                             v = cryomap.resolution2pixels(b2f(case[c]["res"]), dims[0], px)
-                        r2p.append([int(v), type(v).__name__])
+                        r2p.append(_int_like(v))
                 out["res2pix"] = r2p
-                out["res_dev"] = float(np.abs(yr - np.asarray(f.with_pixels(x, radii)).real).max())
+                # the statement's own cutoffs (round(shape[0]*pixel_size/resolution); the Fourier pixels when both are given)
+                stmt = [py_radius(case, case[c]) for c in cuts]
+                out["res_dev"] = float(np.abs(yr - np.asarray(f.with_pixels(x, stmt)).real).max())
             # plane waves
             if inp["type"] in ("waves", "allwaves"):
                 if inp["type"] == "allwaves":
@@ -676,6 +1031,23 @@ def run_impl(case):
                     res.append([kx, ky, kz, f2b(g.real), float(abs(g.imag))])
                 out["waves"] = res
                 out["leak"] = leak
+            # G2: the same call again at the END of the history (after high-passes, companions, other inputs): same arguments, same result
+            out["repeat_dev"] = float(np.abs(np.asarray(f(x)).real - yr).max())
+            if pre:
+                devs = []
+                for pc, y0 in zip(case["pre"], pre):
+                    y1 = np.asarray(f.single(x, pc["kind"], pc["which"]))
+                    devs.append(float(np.abs(y1 - y0).max()) if y1.shape == y0.shape else float("inf"))
+                out["pre_repeat_dev"] = devs
+                # an earlier call and the judged call with the same parameters: high + low = identity, low = low
+                if case["kind"] in ("low", "high"):
+                    rel = []
+                    for pc, y0 in zip(case["pre"], pre):
+                        want = yr if pc["kind"] == case["kind"] else x - yr
+                        rel.append(float(np.abs(y0.real - want).max()) if y0.shape == yr.shape else float("inf"))
+                    out["pre_rel_dev"] = rel
+            out["input_mutated"] = list(f.mutated)
+            out["calls"] = f.ncalls
         finally:
             os.chdir(cwd)
     return out
@@ -707,13 +1079,46 @@ def requests(case, obs):
 
 
 # ------------------------------------------------------------------ judge
+# Kind discipline (G6): "spec" = a clause of the statement evaluated on the REAL output alone (measured gains, outputs of other real
+# calls, exact integer frequency radii, the documented defaults) fails — with a tolerance that is either FFT round-off (TOL) or a bound
+# PROVED in Props/C12 and evaluated by the driver on the executed kernel (tail3, fitsInside/fitsOutside, monoAxisOk);
+# "corr" = the real output differs from the Lean model's, or the harness's own evaluation differs from the driver's.
 RAYS = [d for d in itertools.product((-1, 0, 1), repeat=3) if d != (0, 0, 0)]
 
 
-def _ray_violation(g, dims):
-    """largest increase of the gain along any axis/diagonal ray of growing integer frequency"""
+def mono_axis_ok(n, r):
+    """Model/C12.monoAxisOk: the ball of radius r stays off both faces of the mask box along an axis of length n"""
+    return bool(r < n // 2 and n // 2 + r + 1 < n)
+
+
+def _proved_mono_violation(low, dims, ok):
+    """Props/C12.soft_eff_gain_mono_step on the measured gain: every single step of one index away from frequency 0 along an axis whose
+    ball stays off the faces (ok[axis]), at EVERY position of the other two indices, not landing on the Nyquist bin of an even axis.
+    (Diagonal steps are chains of these.) -> (largest increase, where)"""
+    worst = (0.0, None)
+    for ax in range(3):
+        n = dims[ax]
+        if not ok[ax]:
+            continue
+        f = sfreq(n)
+        g = np.moveaxis(low, ax, 0)
+        for a in range(0, (n - 1) // 2):              # 0 <= a -> a+1 <= (n-1)//2 ; the mirror step -a -> -a-1 stays above -n/2 ... or is the Nyquist bin only when n is even and a+1 = n/2 (excluded by the range)
+            for sgn in (1, -1):
+                i0, i1 = (sgn * a) % n, (sgn * (a + 1)) % n
+                inc = g[i1] - g[i0]
+                m = float(inc.max())
+                if m > worst[0]:
+                    j = np.unravel_index(int(np.argmax(inc)), inc.shape)
+                    worst = (m, (ax, sgn * a, sgn * (a + 1), tuple(int(v) for v in j)))
+    return worst
+
+
+def _ray_violation(g, dims, skip=None):
+    """largest increase of the gain along any axis/diagonal ray of growing integer frequency; skip(d) -> rays to leave out"""
     worst = (0.0, None)
     for d in RAYS:
+        if skip is not None and skip(d):
+            continue
         prev, m = None, 0
         while True:
             k = [m * d[i] for i in range(3)]
@@ -764,21 +1169,45 @@ def _spec_gain(case, kind, radii, sig, g, dims, what, m=None):
         if outside.any() and low[outside].max() > tout + TOL:
             j = tuple(int(v) for v in np.argwhere(outside & (low > tout + TOL))[0])
             out.append(dict(kind="spec", clause="soft-outside", detail=f"{what}: bin {j} radius {R[j]:.3f} >= cutoff+4s+1 = {r+4*s+1}: low-pass gain {low[j]:.9g} exceeds the kernel weight at offsets of length >= 4s+1 ({tout:.6g}, {origin})"))
-        inc, where = _ray_violation(low, dims)
+        # "non-increasing in between".
+        # (a) where it is a THEOREM (Props/C12.soft_eff_gain_mono_step: axes whose ball stays off both faces of the mask box; every axis-parallel
+        #     step away from frequency 0 at every position, hence every diagonal step too) the measured gain is held to it within FFT round-off;
+        ok = [mono_axis_ok(n, r) for n in dims]
+        if m is not None and "mono_axes" in m and [bool(v) for v in m["mono_axes"]] != ok:
+            out.append(dict(kind="corr", clause="mono-axes-vs-model", detail=f"{what}: monoAxisOk per axis: driver {m['mono_axes']}, harness {ok} (dims {list(dims)}, cutoff {r})"))
+        inc, where = _proved_mono_violation(low, dims, ok)
         if inc > TOL:
-            out.append(dict(kind="spec", clause="soft-monotone", detail=f"{what}: low-pass gain grows by {inc:.3g} along ray {where}"))
+            ax, f0, f1, pos = where
+            out.append(dict(kind="spec", clause="soft-monotone", detail=f"{what}: low-pass gain grows by {inc:.3g} from frequency {f0} to {f1} along axis {ax} at the other two indices {pos} "
+                            f"(cutoff {r} keeps the ball off both faces of this axis: non-increasing is proved there, soft_eff_gain_mono_step)"))
+        # (b) on the remaining rays (the ball touches a face of the mask box on a moving axis: mode='nearest' continues the mask and exact
+        #     monotonicity is NOT a theorem — the unchanged code rises by up to ~4e-8 there) an increase is a finding only beyond the proved
+        #     tail weight tail3(ker, floor((4s+1)^2)), the same bound the margin clauses use; boxes below the statement's 8 per axis are left out.
+        inc2, where2 = _ray_violation(low, dims, skip=lambda d: all(ok[i] for i in range(3) if d[i] != 0))
+        if min(dims) >= 8 and inc2 > tin + TOL:
+            out.append(dict(kind="spec", clause="soft-monotone", detail=f"{what}: low-pass gain grows by {inc2:.3g} along ray {where2}, more than the kernel tail weight {tin:.3g} ({origin}) "
+                            f"that bounds what the clamped edge can add (ball touches a face: exact monotonicity not proved here)"))
     return out
+
+
+def _fail(obs):
+    """G4: an exception with no frame inside cryocat/ is the harness's or a third-party library's, not a verdict on the property"""
+    if not obs.get("where"):
+        return [dict(kind="corr", clause="harness-or-library-raised", detail=obs["error"] + " (no frame inside cryocat/)")]
+    return [dict(kind="spec", clause="raises", detail=obs["error"] + " @" + obs.get("where", ""))]
 
 
 def judge(case, obs, resps):
     out = []
     if "error" in obs:
-        return [dict(kind="spec", clause="raises", detail=obs["error"] + " @" + obs.get("where", ""))]
+        return _fail(obs)
     dims = tuple(case["dims"])
     kind = case["kind"]
     cuts = ["cut"] if kind != "band" else ["lp", "hp"]
-    if obs["shape"] != list(dims) or not obs["dtype"].startswith("float") or not obs["finite"]:
-        return [dict(kind="spec", clause="real-valued", detail=f"returned dtype {obs['dtype']} shape {obs['shape']} finite={obs['finite']} imag_max={obs.get('imag_max')}")]
+    if obs.get("input_mutated"):
+        out.append(dict(kind="spec", clause="input-mutated", detail=f"the caller's array was changed in place by {obs['input_mutated'][:4]} ({len(obs['input_mutated'])} call(s))"))
+    if obs.get("ret_type", "ndarray") != "ndarray" or obs["shape"] != list(dims) or not obs["dtype"].startswith("float") or not obs["finite"]:
+        return out + [dict(kind="spec", clause="real-valued", detail=f"returned {obs.get('ret_type')} dtype {obs['dtype']} shape {obs['shape']} finite={obs['finite']} imag_max={obs.get('imag_max')}")]
     sc = max(1.0, obs["scale"])
     g = np.array([b2f(b) for b in obs["gain"]]).reshape(dims)
     if obs["gain_imag_max"] > TOL:
@@ -791,20 +1220,47 @@ def judge(case, obs, resps):
         out.append(dict(kind="spec", clause="complement", detail=f"highpass(x) differs from x - lowpass(x) (same parameters) by {obs['compl_dev']:.3g}"))
     if "band_dev" in obs and obs["band_dev"] > TOL * sc:
         out.append(dict(kind="spec", clause="band-difference", detail=f"bandpass(x) differs from lowpass_lp(x) - lowpass_hp(x) by {obs['band_dev']:.3g}"))
-    # the cutoffs the statement prescribes (it is silent about pixels AND resolution given together: then the code's choice is taken
-    # for the gain clauses and only the correspondence with the model speaks about the precedence)
-    ambiguous = any("res" in case[c] and "fp" in case[c] for c in cuts)
+    # the gain is a function of the parameters only: same call, same result, whatever ran before (G2)
+    if obs.get("repeat_dev", 0.0) > TOL * sc:
+        out.append(dict(kind="spec", clause="call-history", detail=f"the same call on the same array at the end of the run differs from the first by {obs['repeat_dev']:.3g} ({obs.get('calls')} filter calls in this process for the case)"))
+    for pc, dv in zip(case.get("pre", []), obs.get("pre_repeat_dev", [])):
+        if not dv <= TOL * sc:
+            out.append(dict(kind="spec", clause="call-history", detail=f"{pc['kind']}pass({pc['which'] or 'cut'}) called before and after the judged call gives results that differ by {dv:.3g}"))
+            break
+    for pc, dv in zip(case.get("pre", []), obs.get("pre_rel_dev", [])):
+        if not dv <= TOL * sc:
+            rel = "the same filter" if pc["kind"] == kind else "the complement (high + low = identity)"
+            out.append(dict(kind="spec", clause="complement" if pc["kind"] != kind else "call-history", detail=f"the earlier {pc['kind']}pass call with the same parameters is not {rel} of the judged call: differs by {dv:.3g}"))
+            break
+    # an omitted keyword means its documented default (Props/C12.defaults_documented) (G1)
+    if obs.get("default_dev", 0.0) > TOL * sc:
+        om = case.get("omit", []) + (["pixel_size"] if case.get("omit_px") else [])
+        out.append(dict(kind="spec", clause="signature-default", detail=f"the call that omits {om} differs by {obs['default_dev']:.3g} from the call that passes the documented defaults "
+                        f"({ {k: b2f(case[k]) for k in case.get('omit', [])} }, pixel_size=None)"))
+    # the cutoffs the statement prescribes: the Fourier pixels given, else round(box*pixel_size/resolution) with box = shape[0], the documented
+    # edge of a non-cubic map (it is silent about pixels AND resolution given together: then the pixels, as the code documents, and only the
+    # correspondence with the model speaks about the precedence)
     radii = [py_radius(case, case[c]) for c in cuts]
-    if ambiguous and "radii" in obs:
-        radii = list(obs["radii"])
-    if "radii" in obs:
-        if obs["radii"] != radii:
-            out.append(dict(kind="spec", clause="resolution-pixels", detail=f"get_filter_radius gave {obs['radii']}, statement: pixels given, else round(box*pixel_size/resolution) = {radii}"))
+    if "radii_typed" in obs:
+        for c, rt in zip(cuts, obs["radii_typed"]):
+            if not rt[2]:
+                out.append(dict(kind="spec", clause="resolution-pixels", detail=f"get_filter_radius returned {rt[0]} of type {rt[1]} for {c}: Fourier pixels are an integer count"))
+        for rt in obs.get("res2pix", []):
+            if not rt[2]:
+                out.append(dict(kind="spec", clause="resolution-pixels", detail=f"resolution2pixels returned {rt[0]} of type {rt[1]}: Fourier pixels are an integer count"))
+        amb = ["res" in case[c] and "fp" in case[c] for c in cuts]
+        got = [rt[0] for rt in obs["radii_typed"]]
+        if all(rt[2] for rt in obs["radii_typed"]):
+            # pixels AND resolution given for a cutoff: the statement does not say which wins -> the code's choice is taken for the gain clauses
+            radii = [got[i] if amb[i] else radii[i] for i in range(len(cuts))]
+            if got != radii:
+                out.append(dict(kind="spec", clause="resolution-pixels", detail=f"get_filter_radius gave {got}, statement: pixels given, else round(shape[0]*pixel_size/resolution) = {radii}"))
         want = [round(dims[0] * b2f(case["px"]) / b2f(case[c]["res"])) for c in cuts if "res" in case[c]]
-        if [v[0] for v in obs["res2pix"]] != want:
-            out.append(dict(kind="spec", clause="resolution-pixels", detail=f"resolution2pixels gave {obs['res2pix']}, round(box*pixel_size/resolution) = {want}"))
+        if [v[0] for v in obs["res2pix"]] != want and all(v[2] for v in obs["res2pix"]):
+            out.append(dict(kind="spec", clause="resolution-pixels", detail=f"resolution2pixels gave {obs['res2pix']}, round(shape[0]*pixel_size/resolution) = {want} (shape {list(dims)})"))
         if obs["res_dev"] > TOL * sc:
-            out.append(dict(kind="spec", clause="resolution-form", detail=f"filter with target_resolution differs from the filter with fourier_pixels={radii} by {obs['res_dev']:.3g}"))
+            out.append(dict(kind="corr" if any(amb) else "spec", clause="resolution-form", detail=f"the filter given target_resolution/pixel_size differs by {obs['res_dev']:.3g} from the same filter given fourier_pixels={radii} = "
+                            f"round(shape[0]*pixel_size/resolution) on the box {list(dims)}"))
     # gain clauses
     if kind in ("low", "high"):
         s = b2f(case["sigma"])
@@ -813,8 +1269,10 @@ def judge(case, obs, resps):
         out += _spec_gain(case, kind, radii[0], s, g, dims, kind + "pass", resps[0] if resps else None)
     else:
         sl, sh = b2f(case["lp_sigma"]), b2f(case["hp_sigma"])
-        if sl == sh and radii[1] <= radii[0] and (g.min() < -TOL or g.max() > 1 + TOL):
-            out.append(dict(kind="spec", clause="gain-range", detail=f"band-pass (nested, equal widths) gain range [{g.min():.12g}, {g.max():.12g}]"))
+        if g.min() < -TOL or g.max() > 1 + TOL:       # EVERY band-pass: the statement's gain lies in [0,1] (open known findings: see classify)
+            j = tuple(int(v) for v in np.unravel_index(int(np.argmin(g)) if g.min() < -TOL else int(np.argmax(g)), g.shape))
+            out.append(dict(kind="spec", clause="gain-range", detail=f"band-pass (cutoffs lp {radii[0]} / hp {radii[1]}, widths lp {sl} / hp {sh}) gain range [{g.min():.12g}, {g.max():.12g}], "
+                            f"bin {j} (|k|^2={int(radius2(dims)[j])}) has gain {g[j]:.12g}"))
         if sl == 0.0 and sh == 0.0:
             R2 = radius2(dims)
             want = (R2 <= radii[0] ** 2).astype(float) - (R2 <= radii[1] ** 2).astype(float)
@@ -833,6 +1291,8 @@ def judge(case, obs, resps):
                 out.append(dict(kind="spec", clause="plane-wave-gain", detail=f"plane wave k=({kx},{ky},{kz}) scaled by {gv:.12g} (imag {im:.3g}) but the same bin of a random field by {ref:.12g}: not one gain per Fourier component"))
                 break
     # correspondence with the Lean model
+    if not resps:
+        return out + [dict(kind="corr", clause="model-rejects", detail="no answer from the driver")]
     m = resps[0]
     if "error" in m:
         out.append(dict(kind="corr", clause="model-rejects", detail=str(m)))
@@ -872,6 +1332,24 @@ def judge(case, obs, resps):
     return out
 
 
+def classify(case, obs, finding):
+    """open known findings. C12-K1: a band-pass whose two edges have DIFFERENT Gaussian widths has gains outside [0,1] while
+    bandpass == lowpass(lp) - lowpass(hp) still holds. C12-K2 (proposed by the hardening pass, see the report): the same clause pair
+    cannot hold for an INVERTED band (hp cutoff above lp cutoff) even with equal widths: the code returns gains down to -1."""
+    if case.get("kind") != "band" or finding.get("kind") != "spec" or finding.get("clause") != "gain-range" or "error" in obs:
+        return None
+    sc = max(1.0, obs.get("scale", 1.0))
+    if not ("band_dev" in obs and obs["band_dev"] <= TOL * sc):
+        return None              # only while the difference clause holds: a clipped or otherwise altered mask is not this finding
+    cuts = ["lp", "hp"]
+    radii = [py_radius(case, case[c]) for c in cuts]
+    if b2f(case["lp_sigma"]) != b2f(case["hp_sigma"]):
+        return "C12-K1"
+    if radii[1] > radii[0]:
+        return "C12-K2"
+    return None
+
+
 def nontrivial(case, obs):
     if "gain" not in obs:
         return False
@@ -891,10 +1369,22 @@ def stats(case, obs, resps):
           "cutoff_form": ["resolution+fp" if ("res" in case[c] and "fp" in case[c]) else ("resolution" if "res" in case[c] else "pixels") for c in cuts]}
     sig = [b2f(case[k]) for k in (["sigma"] if case["kind"] != "band" else ["lp_sigma", "hp_sigma"])]
     st["sigma"] = [str(s) for s in sig]
+    st["keywords_omitted(G1)"] = "+".join(sorted(case.get("omit", [])) + (["pixel_size"] if case.get("omit_px") else [])) or "none"
+    st["earlier_calls_same_key(G2)"] = "+".join(p_["kind"] + ":" + (p_["which"] or "cut") for p_ in case.get("pre", [])) or "none"
+    st["stream"] = case.get("stream", "general")
+    if case["kind"] == "band":
+        st["band_shape"] = ("inverted" if py_radius(case, case["hp"]) > py_radius(case, case["lp"]) else "nested") + ("+equal-widths" if sig[0] == sig[1] else "+different-widths")
     if "error" in obs or "gain" not in obs:
         st["impl"] = "error"
         return st
     radii = [py_radius(case, case[c]) for c in cuts]
+    st["returned"] = f"{obs.get('ret_type')}:{obs.get('dtype')}"
+    st["filter_calls_per_case"] = "<=10" if obs.get("calls", 0) <= 10 else ("11-50" if obs.get("calls", 0) <= 50 else ">50")
+    if "radii_typed" in obs:
+        st["radius_type"] = [r_[1] for r_ in obs["radii_typed"]]
+    if case["kind"] == "band":
+        g_ = np.array([b2f(b) for b in obs["gain"]])
+        st["band_gain_min"] = ">=0" if g_.min() >= -TOL else (">=-0.01" if g_.min() >= -0.01 else (">=-0.2" if g_.min() >= -0.2 else "<-0.2"))
     st["cutoff/half"] = ["=half" if r == min(d) // 2 else (">half" if r > min(d) // 2 else ("1" if r == 1 else "inner")) for r in radii]
     if case.get("res_how"):
         st["resolution_case"] = case["res_how"]
@@ -915,12 +1405,20 @@ def stats(case, obs, resps):
         st["soft_inside/outside_bins"] = ("inside" if ins.any() else "") + ("+outside" if outs.any() else "") or "none"
         tin, tout, fin, fout, origin = _model_margins(resps[0] if resps else None, tuple(d), radii[0], sig[0])
         st["margin_tolerance_from"] = origin
+        ok = [mono_axis_ok(n, radii[0]) for n in d]
+        st["monotone_proved_axes"] = str(sum(ok))
+        inc_p, _ = _proved_mono_violation(low, tuple(d), ok)
+        inc_u, _ = _ray_violation(low, tuple(d), skip=lambda dd: all(ok[i] for i in range(3) if dd[i] != 0))
+        st["increase_on_proved_steps"] = "0" if inc_p <= 0 else ("<1e-12" if inc_p < 1e-12 else ("<1e-9" if inc_p < 1e-9 else ">=1e-9"))
+        st["increase_on_unproved_rays/tail"] = "0" if inc_u <= 0 else ("<1e-9 abs" if inc_u < 1e-9 else ("<1% of tail" if inc_u < 0.01 * tin else ("<100% of tail" if inc_u <= tin else ">tail")))
+        st["inside_bins"] = "0" if not ins.any() else ("1-10" if ins.sum() <= 10 else ("11-100" if ins.sum() <= 100 else ">100"))
+        st["outside_bins"] = "0" if not outs.any() else ("1-10" if outs.sum() <= 10 else ("11-100" if outs.sum() <= 100 else ">100"))
         if fin is not None:
             st["proved_margin_bins/statement_bins"] = "more" if ((fin | fout) & ~(ins | outs)).any() else "same"
         if ins.any() or outs.any():
             tw = max(tin, tout)
             fr = max(used_in / tin if tin > 1e-9 else 0.0, used_out / tout if tout > 1e-9 else 0.0) if tw > 1e-9 else None
-            st["tail_dev/kernel_tail_weight"] = "weight<1e-9" if fr is None else ("<1%" if fr < 0.01 else ("<25%" if fr < 0.25 else ("<100%" if fr <= 1 else ">100%")))
+            st["tail_dev/kernel_tail_weight"] = "weight<1e-9" if fr is None else ("<1%" if fr < 0.01 else ("<25%" if fr < 0.25 else ("<100%" if fr < 0.999999 else ("=100% (bound attained)" if fr <= 1.000001 else ">100%"))))
     fr_ = [r for r in (resps or [])[1:] if isinstance(r, dict) and "out" in r]
     if "out" in obs and fr_:
         dvf = float(np.abs(np.array([b2f(b) for b in fr_[0]["out"]]) - np.array([b2f(b) for b in obs["out"]])).max())
@@ -939,6 +1437,9 @@ def sample_view(case):
     for k in ("sigma", "lp_sigma", "hp_sigma", "px"):
         if k in case:
             v[k] = b2f(case[k])
+    for k in ("omit", "omit_px", "pre", "stream"):
+        if k in case:
+            v[k] = case[k]
     inp = case["input"]
     v["input"] = dict(type=inp["type"], seed=inp.get("seed"), n_waves=len(inp.get("waves", [])) or None)
     return v
@@ -1011,16 +1512,18 @@ LEVEL_TEXT = ("Lean 4 theorems about an executable model of cryomap.lowpass/high
               "and shape, and is even (np.real drops nothing); with any non-negative unit-sum kernel (the model's Gaussian kernel is proved to be one for every "
               "positive exponential) the gain lies in [0,1], and for sqrt(A)+sqrt(m) <= cutoff (resp. sqrt(A) > cutoff+sqrt(m)) a bin of squared radius A has "
               "1-gain (resp. gain) <= the kernel weight at offsets of squared length > m, which is 0 beyond the kernel's reach sqrt(3)*t (exact plateaus); the gain "
-              "is non-increasing along axis-parallel lines away from the centre for symmetric unimodal kernels (the model's kernel is one for every positive monotone "
-              "exponential) when the ball stays off the box faces; round-half-even characterisation of resolution2pixels. Tied to the source by 16 regenerated anchors, "
+              "is non-increasing along every step (axis-parallel or diagonal) that moves indices away from frequency 0 for symmetric unimodal kernels (the model's kernel is one for every positive monotone "
+              "exponential) when the ball stays off the box faces on the moving axes, for the raw and for the effective (np.real-symmetrised, measured) gain; the band-pass gain lies in [-1,1] and in [0,1] for nested equal-width masks, with kernel-checked "
+              "witnesses of negative gains otherwise (C12-K1); round-half-even characterisation of resolution2pixels. Tied to the source by 18 regenerated anchors that do not depend on local variable names (control-flow paths with locals "
+              "inlined, alpha-renamed bodies, signatures and defaults), "
               "by measuring the real filters' gains (fft(out)/fft(in), random fields and plane waves at every integer frequency) against the model's gain arrays, and "
               "on boxes <= 8 per axis by comparing the real OUTPUT ARRAY with the model's np.real(ifftn(fftn(x)*gain)) executed on the model's DFT")
 LEVEL_NOTE = ("partial: the literal '= 1 inside cutoff-4s-1, = 0 outside cutoff+4s+1' is false in exact arithmetic for margins below the kernel reach (proved: "
               "soft_edge_full_false_below_reach); proved and checked instead: the deviation is at most the kernel tail weight beyond the margin (<=3.4e-4 for s<=4), "
-              "computed by the driver; 'non-increasing in between' is proved along axis-parallel lines only (not along diagonals, not where the ball touches a face of "
-              "the mask box, not for the np.real-symmetrised gain) and validated along the 26 rays; the DFT shift theorem and the Hermitian-symmetry facts used by "
+              "computed by the driver; 'non-increasing in between' is proved (raw and effective gain, axis-parallel and diagonal steps) only where the ball stays off the faces of "
+              "the mask box on the moving axes; where it touches a face it is not a theorem (the code rises by ~4e-8) and rises are only bounded by the kernel tail along the 26 rays; the DFT shift theorem and the Hermitian-symmetry facts used by "
               "filt_shift/filt_effective_gain remain hypotheses (probed on numpy.fft); skimage.filters.gaussian is modelled by a recorded, probed assumption; floating "
-              "point vs exact arithmetic within 1e-9; band-pass gain range [0,1] is proved/checked for nested masks with equal widths only (with different widths the "
-              "difference of two low-passes can be negative by construction)")
+              "point vs exact arithmetic within 1e-9; band-pass gain range [0,1] is proved for nested masks with equal widths only; it is CHECKED on every band-pass: with different widths "
+              "(open known finding C12-K1) and for inverted bands (C12-K2, proposed) the real gains are negative")
 TECHNIQUE = "Lean 4 proof (multiplier algebra over modules, integer index arithmetic, weighted-sum inequalities over ordered fields) + regenerated anchors + measured-gain correspondence"
 DESIGN_REF = "DESIGN.md section 4, C12"
